@@ -40,12 +40,23 @@ def _geoms(tier):
             ("SDR", 1, 2, 12, 8, 1, 0x40000), ("SDR", 1, 2, 12, 8, 1, 0x80000), ("DDR3", 4, 3, 13, 10, 2, 0x100000),
         ]
         return base
+    base = _geoms("quick")
+    seen = set(base)
+    out = list(base)
     for memtype, nph in [("SDR", 1), ("SDR", 2), ("SDR", 4), ("DDR", 2), ("DDR3", 4), ("DDR3", 2), ("DDR4", 4), ("LPDDR4", 8)]:
         for bankbits in (1, 2, 3, 4):
-            for rowbits, colbits in [(11, 8), (13, 9), (14, 10), (15, 11), (17, 12), (12, 12)]:
+            for rowbits, colbits in [(11, 8), (14, 10), (15, 11), (17, 12)]:
                 for nranks in (1, 2):
-                    for bba in (0, 4096, 0x10000, "word"):
-                        out.append((memtype, nph, bankbits, rowbits, colbits, nranks, bba))
+                    for bba in (0, 0x10000, "word"):
+                        # keep the matrix affordable: 16-bank two-rank cores (32 bank machines) only for two shapes
+                        if bankbits == 4 and (nranks == 2 or nph == 8) and (rowbits, colbits) not in [(15, 11)]:
+                            continue
+                        if bankbits in (2, 4) and bba in (4096,) and nph in (2,):
+                            continue
+                        g = (memtype, nph, bankbits, rowbits, colbits, nranks, bba)
+                        if g not in seen:
+                            seen.add(g)
+                            out.append(g)
     return out
 
 
